@@ -20,6 +20,153 @@ pub trait Family: Sync {
     fn dec(e: &mut Self::Dec, d: &mut [u8]);
     /// the key the *reference model* says the recurrence runs over
     fn ref_key(key: &[u8; 40]) -> Vec<u8>;
+    /// the header entry points of the module (typed, reader / writer based), all of which are the same cipher
+    fn header_pass(report: &Report, key: &[u8; 40], seed: u64) -> u64;
+}
+
+/// Reader that hands out at most `chunk` bytes per call and fails (once) when `fail_at` bytes have been delivered.
+struct Dribble<'a> {
+    data: &'a [u8],
+    pos: usize,
+    chunk: usize,
+    fail_at: Option<usize>,
+}
+impl std::io::Read for Dribble<'_> {
+    fn read(&mut self, buf: &mut [u8]) -> std::io::Result<usize> {
+        if self.fail_at == Some(self.pos) {
+            self.fail_at = None;
+            return Err(std::io::Error::new(std::io::ErrorKind::ConnectionReset, "injected"));
+        }
+        let mut n = buf.len().min(self.chunk).min(self.data.len() - self.pos);
+        if let Some(f) = self.fail_at {
+            if self.pos < f {
+                n = n.min(f - self.pos);
+            }
+        }
+        buf[..n].copy_from_slice(&self.data[self.pos..self.pos + n]);
+        self.pos += n;
+        Ok(n)
+    }
+}
+/// Writer that accepts at most `chunk` bytes per call.
+struct Trickle {
+    out: Vec<u8>,
+    chunk: usize,
+}
+impl std::io::Write for Trickle {
+    fn write(&mut self, buf: &[u8]) -> std::io::Result<usize> {
+        let n = buf.len().min(self.chunk);
+        self.out.extend_from_slice(&buf[..n]);
+        Ok(n)
+    }
+    fn flush(&mut self) -> std::io::Result<()> {
+        Ok(())
+    }
+}
+
+macro_rules! header_pass_impl {
+    ($m:ident, $fam:ty) => {
+        fn header_pass(report: &Report, key: &[u8; 40], seed: u64) -> u64 {
+            use mc::util::catch;
+            let rk = <$fam as Family>::ref_key(key);
+            let sizes: [u16; 10] = [0, 1, 4, 6, 0x00FF, 0x0100, 0x7FFF, 0x8000, 0x8001, 0xFFFF];
+            let sops: [u16; 5] = [0, 1, 0x01ED, 0x8000, 0xFFFF];
+            let cops: [u32; 6] = [0, 1, 0x01ED, 0xFFFF, 0x0001_0000, 0xFFFF_FFFF];
+            let mut cases = 0u64;
+            let fail = |what: &str, detail: String| viol::<$fam>(report, "header-entry-points", what, key, json!({"module": stringify!($m)}), detail);
+            for warm in [0usize, 1, 5, 39, 40, 41, 255] {
+                let (mut e, mut d) = <$fam as Family>::make(key);
+                let mut re = refmodel::cipher::Recurrence { key: rk.clone(), n: 0, prev: 0 };
+                let mut rd = refmodel::cipher::Recurrence { key: rk.clone(), n: 0, prev: 0 };
+                let mut w = vec![0x5Au8; warm];
+                e.encrypt(&mut w.clone());
+                re.enc(&mut w.clone());
+                d.decrypt(&mut w);
+                rd.dec(&mut vec![0x5Au8; warm]);
+                for (i, &size) in sizes.iter().enumerate() {
+                    let sop = sops[(i + warm) % sops.len()];
+                    let cop = cops[(i + warm) % cops.len()];
+                    // ---- encrypting side: typed and writer-based (whole / one byte at a time), server and client headers
+                    let mut want_s = refmodel::cipher::server_header_plain(size, sop).to_vec();
+                    re.enc(&mut want_s);
+                    let got = match i % 3 {
+                        0 => catch(|| e.encrypt_server_header(size, sop).to_vec()),
+                        1 => catch(|| { let mut t = Trickle { out: vec![], chunk: 1 }; e.write_encrypted_server_header(&mut t, size, sop).map(|_| t.out) }.unwrap_or_default()),
+                        _ => catch(|| { let mut t = Trickle { out: vec![], chunk: 64 }; e.write_encrypted_server_header(&mut t, size, sop).map(|_| t.out) }.unwrap_or_default()),
+                    };
+                    cases += 1;
+                    if got.as_ref().ok() != Some(&want_s) {
+                        fail("server-header-encrypt", format!("server header size={size:#x} opcode={sop:#x} after {warm} bytes + {i} headers (entry point #{}): {:?}, the recurrence over size BE16 | opcode LE16 gives {}", i % 3, got.map(|g| hex(&g)), hex(&want_s)));
+                        return cases;
+                    }
+                    let mut want_c = refmodel::cipher::client_header_plain(size, cop).to_vec();
+                    re.enc(&mut want_c);
+                    let got = match i % 3 {
+                        1 => catch(|| e.encrypt_client_header(size, cop).to_vec()),
+                        2 => catch(|| { let mut t = Trickle { out: vec![], chunk: 1 }; e.write_encrypted_client_header(&mut t, size, cop).map(|_| t.out) }.unwrap_or_default()),
+                        _ => catch(|| { let mut t = Trickle { out: vec![], chunk: 64 }; e.write_encrypted_client_header(&mut t, size, cop).map(|_| t.out) }.unwrap_or_default()),
+                    };
+                    cases += 1;
+                    if got.as_ref().ok() != Some(&want_c) {
+                        fail("client-header-encrypt", format!("client header size={size:#x} opcode={cop:#x} after {warm} bytes + {i} headers: {:?}, the recurrence over size BE16 | opcode LE32 gives {}", got.map(|g| hex(&g)), hex(&want_c)));
+                        return cases;
+                    }
+                    // ---- decrypting side: the peer's ciphertext for the same headers; typed / reader whole / reader dribbling /
+                    //      reader that fails once at some offset first (nothing may be consumed by the failed call)
+                    let mut wire_s = refmodel::cipher::server_header_plain(size, sop).to_vec();
+                    rd_enc_for_peer(&mut rd, &mut wire_s);
+                    let r = match i % 4 {
+                        0 => catch(|| { let h = d.decrypt_server_header([wire_s[0], wire_s[1], wire_s[2], wire_s[3]]); Some((h.size, h.opcode)) }),
+                        1 => catch(|| d.read_and_decrypt_server_header(&mut Dribble { data: &wire_s, pos: 0, chunk: 64, fail_at: None }).ok().map(|h| (h.size, h.opcode))),
+                        2 => catch(|| d.read_and_decrypt_server_header(&mut Dribble { data: &wire_s, pos: 0, chunk: 1, fail_at: None }).ok().map(|h| (h.size, h.opcode))),
+                        _ => catch(|| {
+                            let first = d.read_and_decrypt_server_header(&mut Dribble { data: &wire_s, pos: 0, chunk: 2, fail_at: Some((i + warm) % 4) });
+                            if first.is_ok() {
+                                return None;
+                            }
+                            d.read_and_decrypt_server_header(&mut Dribble { data: &wire_s, pos: 0, chunk: 3, fail_at: None }).ok().map(|h| (h.size, h.opcode))
+                        }),
+                    };
+                    cases += 1;
+                    if r != Ok(Some((size, sop))) {
+                        fail("server-header-decrypt", format!("server header size={size:#x} opcode={sop:#x} after {warm} bytes + {i} headers (entry point #{}) decodes as {r:?}", i % 4));
+                        return cases;
+                    }
+                    let mut wire_c = refmodel::cipher::client_header_plain(size, cop).to_vec();
+                    rd_enc_for_peer(&mut rd, &mut wire_c);
+                    let r = match (i + 1) % 4 {
+                        0 => catch(|| { let h = d.decrypt_client_header([wire_c[0], wire_c[1], wire_c[2], wire_c[3], wire_c[4], wire_c[5]]); Some((h.size, h.opcode)) }),
+                        1 => catch(|| d.read_and_decrypt_client_header(&mut Dribble { data: &wire_c, pos: 0, chunk: 64, fail_at: None }).ok().map(|h| (h.size, h.opcode))),
+                        2 => catch(|| d.read_and_decrypt_client_header(&mut Dribble { data: &wire_c, pos: 0, chunk: 1, fail_at: None }).ok().map(|h| (h.size, h.opcode))),
+                        _ => catch(|| {
+                            let first = d.read_and_decrypt_client_header(&mut Dribble { data: &wire_c, pos: 0, chunk: 2, fail_at: Some((i + warm) % 6) });
+                            if first.is_ok() {
+                                return None;
+                            }
+                            d.read_and_decrypt_client_header(&mut Dribble { data: &wire_c, pos: 0, chunk: 5, fail_at: None }).ok().map(|h| (h.size, h.opcode))
+                        }),
+                    };
+                    cases += 1;
+                    if r != Ok(Some((size, cop))) {
+                        fail("client-header-decrypt", format!("client header size={size:#x} opcode={cop:#x} after {warm} bytes + {i} headers (entry point #{}) decodes as {r:?}", (i + 1) % 4));
+                        return cases;
+                    }
+                }
+            }
+            let _ = seed;
+            cases
+        }
+    };
+}
+
+/// The peer's encrypter for the stream our decrypter reads: same recurrence, tracked by the decrypt-side reference.
+fn rd_enc_for_peer(rd: &mut refmodel::cipher::Recurrence, plain_to_wire: &mut [u8]) {
+    // `rd` tracks the decrypter's (n, prev): encrypting with a copy yields the ciphertext the decrypter must accept, and
+    // decrypting that ciphertext advances `rd` exactly as the real decrypter advances
+    let mut peer = refmodel::cipher::Recurrence { key: rd.key.clone(), n: rd.n, prev: rd.prev };
+    peer.enc(plain_to_wire);
+    let mut copy = plain_to_wire.to_vec();
+    rd.dec(&mut copy);
 }
 
 pub struct Vanilla;
@@ -41,6 +188,7 @@ impl Family for Vanilla {
     fn ref_key(key: &[u8; 40]) -> Vec<u8> {
         key.to_vec()
     }
+    header_pass_impl!(vanilla_header, Vanilla);
 }
 
 pub struct Tbc;
@@ -62,6 +210,7 @@ impl Family for Tbc {
     fn ref_key(key: &[u8; 40]) -> Vec<u8> {
         refmodel::hash::hmac_sha1(&refmodel::cipher::TBC_SEED, key).to_vec()
     }
+    header_pass_impl!(tbc_header, Tbc);
 }
 
 /// Action alphabet of the per-direction machine: 256 one-byte calls and the zero-length call.
@@ -512,6 +661,12 @@ pub fn run<F: Family>(tier: Tier, seed: u64) -> i32 {
             }
         }
     });
+    // the typed and the reader / writer based header entry points are the same cipher (whole, dribbling and once-failing I/O)
+    {
+        let hp: u64 = keys.par_iter().take(tier.pick(6, 40)).map(|k| F::header_pass(&report, k, seed)).sum();
+        report.count("header_entry_point_cases", hp);
+        report.require("header_entry_point_cases");
+    }
     // long-stream walk (beyond what the fixpoint argument needs): any hidden byte counter narrower than the walk wraps
     let walk_total: u64 = tier.pick(1u64 << 24, (1u64 << 32) + (1 << 20));
     let walk_keys: Vec<[u8; 40]> = keys.iter().take(tier.pick(2, 1)).cloned().collect();
